@@ -119,3 +119,10 @@ func VerifReassignBlocks(r *AlterPartitionReassignmentsRequest) map[string]map[i
 	}
 	return out
 }
+
+// VerifCustomFallbackPartitioner builds a hash partitioner with the WithCustomFallbackPartitioner option
+// (its argument type is unexported, so only in-package code can use the option at all).
+func VerifCustomFallbackPartitioner(topic string) Partitioner {
+	fallback := NewHashPartitioner(topic).(*hashPartitioner)
+	return NewCustomPartitioner(WithCustomFallbackPartitioner(fallback))(topic)
+}
